@@ -13,4 +13,6 @@ func init() {
 	mut("C16", "postdata-marker-mismatch", "har/har.go", "\t\tText:     []byte(p.Text),\n\t\tEncoding: \"base64\",\n", "\t\tText:     []byte(p.Text),\n\t\tEncoding: \"binary\",\n", "C16.R4", "PostData")
 	mut("C16", "capture-flag-ignored", "har/har.go", "hres, err := NewResponse(res, l.bodyLogging(res))", "hres, err := NewResponse(res, true)", "C16.R5", "RecordResponse")
 	mut("C16", "snapshot-regardless-of-flag", "har/har.go", "\tif !logBody {\n\t\treturn pd, nil\n\t}\n", "", "C16.R5", "postData")
+	mut("C16", "pooled-message-view", "har/har.go", "\ttail    *Entry\n}\n\x00\tmv := messageview.New()\n\tif err := mv.SnapshotRequest(req); err != nil {", "\ttail    *Entry\n}\n\nvar viewPool = sync.Pool{New: func() interface{} { return messageview.New() }}\n\x00\tmv := viewPool.Get().(*messageview.MessageView)\n\tdefer viewPool.Put(mv)\n\tif err := mv.SnapshotRequest(req); err != nil {", "C16.R7", "postData")
+	twin("C16", "view-through-local-constructor-phi", "har/har.go", "\tmv := messageview.New()\n\tif err := mv.SnapshotRequest(req); err != nil {", "\tvar mv *messageview.MessageView\n\tif logBody {\n\t\tmv = messageview.New()\n\t} else {\n\t\tmv = messageview.New()\n\t}\n\tif err := mv.SnapshotRequest(req); err != nil {")
 }
